@@ -407,6 +407,10 @@ def check_units(case):
             # (repair of D15); that fallback has the wrong physical dimension, so the result is unit-dependent at the level of the
             # Jacobian truncation error.  Recorded as a limitation in DESIGN.md; not judged here.
             raise Skip("implicit Jacobian fallback step for an identically zero variable is not unit-aware")
+    if cases.is_implicit(integ) and ka != 0 and all(np.all(q == 0) for q in q0):
+        # same limitation for a field that is identically zero in EVERY variable (scalar model driven by its boundary values only): the fallback step is the
+        # absolute number 1e-6, so the noise of the difference quotient depends on the unit of the data
+        raise Skip("implicit Jacobian fallback step for an identically zero variable is not unit-aware")
     resC, gC, smd, f0, tieC = run(C, integ, cfl, ns, True)
     resS, gS, _s, _f, tieS = run(S, integ, cfl, ns, True)
     if resC is None or resS is None:
